@@ -22,6 +22,6 @@ def units(tier):
         E("vp_main_roundtrip_array2", "AbstractArray<int> size 2", uw=10),
         E("vp_main_truncation", "every truncation point of a 5-byte stream throws", uw=10),
     ]
-    return [CbmcUnit("stream", "harness/C15_stream.cpp", entries, defines=["CAPMAX=%d" % cap], heap_max=64,
+    return [CbmcUnit("stream", "harness/C15_stream.cpp", entries, defines=["CAPMAX=%d" % cap], heap_max=64, object_bits=10,
                      assumptions=["allocation never fails", "capacity <= %d" % cap, "std::string payloads: see unit stream_str"],
                      stubs=["operator new/delete = malloc/free model", "std::runtime_error ctor/dtor: type tag only"])]
